@@ -1483,7 +1483,7 @@ func c05Rejects(c *ctx, d *Driver, impl *[]string) {
 		case o.panicked:
 			switch fr := topRepoFrame(o.stack); {
 			case strings.Contains(fr, "Consumes"):
-				res = "panic:consume"
+				res = "panic:consume" // not an outcome of the model any more: Consumes is total
 			case strings.Contains(fr, "Aux") || strings.Contains(fr, "buildAux"):
 				res = "panic:auxtype"
 			default:
@@ -1545,7 +1545,9 @@ func c05ErrName(err error) string {
 	for _, p := range [][2]string{
 		{"invalid block size", "err:blocksize"}, {"invalid read name length", "err:readnamelen"},
 		{"invalid sequence length", "err:seqlen"}, {"mate reference id out of range", "err:materefrange"},
-		{"reference id out of range", "err:refrange"}, {"no zero", "err:auxnozero"},
+		{"reference id out of range", "err:refrange"}, {"no zero", "err:auxnozero"}, {"zero in tag", "err:auxzerointag"},
+		{"truncated aux array header", "err:auxarrayhdr"}, {"truncated aux data", "err:auxtruncated"},
+		{"unrecognised array element type", "err:auxarrayelem"},
 		{"invalid array length", "err:auxarraylen"}, {"unrecognised optional field type", "err:auxtype"},
 		{"unexpected EOF", "err:unexpectedEOF"},
 	} {
@@ -1624,7 +1626,7 @@ func c05Mutate(rnd *Rand, recs [][]byte, nrefs int) ([]byte, string) {
 	case 13:
 		kind = "aux-B-bad-subtype"
 		sub := byte(rnd.pick([]int{'Z', 'H', 'B', 'x', 0, 'A'}))
-		n := rnd.pick([]int{0, 1, 3, 7, 9, 12, 100}) // never 8: with jumps[sub] = -1 the entry size is 0 and the loop never ends
+		n := rnd.pick([]int{0, 1, 3, 7, 8, 9, 12, 100}) // 8 with jumps[sub] = -1 used to give an entry of size 0 and an endless loop
 		b = append(b, 'X', 'Q', 'B', sub)
 		b = binary.LittleEndian.AppendUint32(b, uint32(n))
 		b = append(b, make([]byte, rnd.intn(12))...)
@@ -1660,10 +1662,6 @@ func c05Mutate(rnd *Rand, recs [][]byte, nrefs int) ([]byte, string) {
 	}
 	return s, kind
 }
-
-// c05HangRisk: does the stream contain the one malformed shape on which parseAux never returns (a 'B' entry with a
-// sub-type whose jumps entry is -1 and a count of 8)?  Such inputs are not run on the implementation.
-func c05HangRisk(model string) bool { return strings.Contains(model, "hang:") }
 
 func c05Malformed(c *ctx, n int) {
 	r := c.res
@@ -1725,10 +1723,6 @@ func c05Malformed(c *ctx, n int) {
 	for i, mc := range cases {
 		r.hist("malformed." + mc.kind)
 		r.eval(fmt.Sprintf("mal:%x", c05Fnv(mc.stream)), true)
-		if c05HangRisk(model[i]) {
-			r.hist("malformed.model-predicts-hang(not-run)")
-			continue
-		}
 		var buf bytes.Buffer
 		bg := bgzf.NewWriter(&buf, 1)
 		bg.Write(hb)
@@ -1755,25 +1749,6 @@ func c05Malformed(c *ctx, n int) {
 		}
 		got = fmt.Sprintf("%d %d %s", len(out.recs), c05Fnv(all), got)
 		want := model[i]
-		if strings.HasSuffix(want, "panic:auxslice") {
-			// aux[i:i+j:i+j] is checked against the CAPACITY of the aux block: when the block is a copy whose capacity was
-			// rounded up by the allocator the implementation does not panic but returns a field extended by the bytes
-			// beyond the length; when capacity = length it panics.  Not predictable from the input: only recorded.
-			if strings.HasSuffix(got, "panic:parseAux") {
-				r.hist("malformed.auxslice.impl-panics")
-			} else {
-				r.hist("malformed.auxslice.impl-reads-beyond-length")
-			}
-			continue
-		}
-		if strings.HasSuffix(want, "panic:auxarray") {
-			// capacity-dependent on the implementation: panic, or the array-length error (see the model's note)
-			alt := strings.Replace(want, "panic:auxarray", "err:auxarraylen", 1)
-			want = strings.Replace(want, "panic:auxarray", "panic:parseAux", 1)
-			if got == alt {
-				got = want
-			}
-		}
 		r.hist("malformed.end." + got[strings.LastIndex(got, " ")+1:])
 		if got != want {
 			r.disagree("C05.malformed", fmt.Sprintf("c05.dec %d 3 %s (%s, case seed %d)", mc.omit, hexs(mc.stream), mc.kind, mc.seed), got, want)
